@@ -14,7 +14,7 @@ def run(ctx):
     # up to three ready coroutines carried by the suspend point returned from the resolution
     fjobs = [(["val"], ["co", "co", "co"]), (["exc", "dtor"], ["co", "bl"]), (["drop"], ["cb", "hv", "bl"]),
              (["val", "val"], ["co", "cb"]), (["final"], ["co", "co", "bl"]), (["mdes"], ["bl", "cb"])]
-    mjobs = [["co", "co"], ["co", "bl"], ["co", "co", "co"], ["co", "bl", "try"]]
+    mjobs = [["co", "co"], ["co", "bl"], ["co", "co", "co"], ["co", "bl", "try"], ["bl", "bl"], ["bl", "try"]]
     if not ctx.quick:
         fjobs += [(r, w) for r in (["val"], ["exc"], ["drop"], ["dtor"]) for w in fl.waiter_mixes(3) if len(w) == 3][:40]
         mjobs += [["co", "co", "co", "co"], ["bl", "bl", "co"], ["co", "co", "bl", "try"]]
